@@ -59,10 +59,10 @@ func findInterfaceMethods(interfaceType types.Type, target *[]*types.Func) {
 	}
 }
 
-func findInterfaceCallees(program *ssa.Program, interfaceType types.Type, v ssa.Value, action func(*ssa.Function)) {
+func findInterfaceCallees(program *ssa.Program, interfaceType types.Type, t types.Type, action func(*ssa.Function)) {
 
-	// get the methods of 'v.Type()'
-	methodSet := program.MethodSets.MethodSet(v.Type())
+	// get the methods of 't'
+	methodSet := program.MethodSets.MethodSet(t)
 
 	// look at the methods in the interface
 	interfaceMethods := make([]*types.Func, 0)
@@ -84,7 +84,7 @@ func findInterfaceCallees(program *ssa.Program, interfaceType types.Type, v ssa.
 			methodsNeeded[m.Name()] = true
 		}
 
-		// look at the methods of 'v.Type()'
+		// look at the methods of 't'
 		for i := 0; i < methodSet.Len(); i++ {
 			selection := methodSet.At(i)
 
@@ -129,7 +129,19 @@ func findCallees(program *ssa.Program, f *ssa.Function, action func(*ssa.Functio
 				}
 
 			case *ssa.MakeInterface:
-				findInterfaceCallees(program, v.Type(), v.X, action)
+				findInterfaceCallees(program, v.Type(), v.X.Type(), action)
+
+			case *ssa.TypeAssert:
+				// Asserting an interface value to another interface type (also in a type switch) makes the methods of
+				// the asserted interface callable on the value, whatever interface its concrete type was converted to.
+				// Any concrete type that is converted to an interface and implements the asserted one may be there.
+				if iface, ok := v.AssertedType.Underlying().(*types.Interface); ok && !iface.Empty() {
+					for _, t := range program.RuntimeTypes() {
+						if !types.IsInterface(t) && types.Implements(t, iface) {
+							findInterfaceCallees(program, v.AssertedType, t, action)
+						}
+					}
+				}
 			}
 		}
 	}
